@@ -322,12 +322,19 @@ def run_phase(run, name, fn, cases, setup=None, rule=None, nproc=None, exhaustiv
     only = [t for t in os.environ.get("VERIF_ONLY", "").split(",") if t]   # development aid: phases whose name contains one of these
     if only and not any(t in name for t in only):
         return Stats()
+    if getattr(run, "abort_rest", False):
+        # a case of an earlier phase did not terminate: the violation is established; do not wait another watchdog period per phase
+        run.cov["exhaustive"] = False
+        run.cov.setdefault("phases_skipped_after_hang", []).append(name)
+        return Stats()
     if REPLAY is not None:
         if REPLAY.get("phase") != name:
             return Stats()
         cases = [pickle.loads(base64.b64decode(REPLAY["raw_case"]))]
         nproc = 1
     st = pmap(fn, cases, setup=setup, nproc=nproc, describe=describe)
+    if st.hist.get("hang"):
+        run.abort_rest = True
     d = st.as_dict(time.time() - t0)
     if extra:
         d.update(extra)
